@@ -280,6 +280,8 @@ func (jr *jpegReader) readExif() (err error) {
 		if err = jr.ExifReader(jr.br, exifHeader); err != nil {
 			return err
 		}
+		// The reader has consumed the Exif block: keep the absolute offset in step
+		jr.discarded += exifLength
 		// Discard remaining bytes
 		remain = 0
 	}
@@ -304,6 +306,8 @@ func (jr *jpegReader) readXMP() (err error) {
 		if err = jr.XMPReader(r); err != nil {
 			return err
 		}
+		// Keep the absolute offset in step with what the reader consumed
+		jr.discarded += uint32(remain - int(r.(*io.LimitedReader).N))
 		// Discard remaining bytes
 		remain = int(r.(*io.LimitedReader).N)
 	}
